@@ -224,6 +224,15 @@ func dateTimeSamples(t *rapid.T, label string) []fmtSample {
 		{"", false},
 		{ok + " ", false},
 		{date + "T" + tm[:5] + off, false}, // no seconds
+		// fields with a digit missing, a comma before the fraction, offsets out of range, leap seconds
+		{date + "T" + strings.TrimPrefix(tm, "0") + frac + off, tm[0] != '0'},
+		{date + "T" + tm[:3] + strings.TrimPrefix(tm[3:], "0") + off, tm[3] != '0'},
+		{date + "T" + tm + "," + digits(t, 1, 3, false, label+"cf") + off, false},
+		{date + "T" + tm + frac + rapid.SampledFrom([]string{"+24:00", "-24:00", "+23:60", "+00:60", "-99:99", "+1:00", "+01:0", "+0100", "+01"}).Draw(t, label+"badoff"), false},
+		{date + "T23:59:60" + frac + off, true},
+		{date[:8] + rapid.SampledFrom([]string{"31", "30"}).Draw(t, label+"eom") + "T" + rapid.SampledFrom([]string{"23:59:60Z", "15:59:60-08:00", "23:59:61Z"}).Draw(t, label+"leap"), false},
+		{date + "T" + tm + "." + off, false},
+		{date + "T" + tm + "." + digits(t, 10, 14, false, label+"longfr") + off, true},
 	}
 }
 
@@ -241,6 +250,16 @@ func emailSamples(t *rapid.T, label string) []fmtSample {
 		{"<" + ok + ">", false},
 		{"<" + ok, false},
 		{"", false},
+		// mailbox syntax that is more than an address: display names, comments, groups, blanks other than ' '
+		{"Barry Gibbs <" + ok + ">" + rapid.SampledFrom([]string{"\t", "\n", "\r", " \t"}).Draw(t, label+"WS1"), false},
+		{ok + rapid.SampledFrom([]string{"\t", "\n", "\r\n", "\t "}).Draw(t, label+"WS2"), false},
+		{rapid.SampledFrom([]string{"\t", "\n", "\r"}).Draw(t, label+"WS3") + ok, false},
+		{ok + " (" + local + ")", false},
+		{"(c)" + ok, false},
+		{"friends: " + ok + ";", false},
+		{local + "@ " + dom, false},
+		{local + " @" + dom, false},
+		{"\"" + local + "\" <" + ok + ">\t", false},
 	}
 }
 
